@@ -13,7 +13,10 @@
    - C19_gkr_claims_true: if all per-wire checks of the GKR verifier pass and no lucky event occurs, every
      claim the verifier handled is true of the direct evaluation of the circuit;
    - C19_gkr_exec_sound: if the executable verifier accepts (and no lucky event occurs), the claimed
-     output tables and the direct evaluation have the same multilinear extension at the first challenge.
+     output tables and the direct evaluation have the same multilinear extension at the first challenge;
+   - C19_direct_eval_consistent / C19_gkr_exec_sound_direct: the direct evaluation of a topologically sorted
+     circuit exists (it is the executable wire-by-wire evaluation [direct_eval]), so the hypothesis of the
+     soundness theorem is satisfiable, and soundness is restated for it.
    Named residue: the lucky events (Schwartz-Zippel: probability <= degree/|F| each) and the Fiat-Shamir
    derivation of the challenges (C15 transcript); solving / exporting with dependencies (compile.go) —
    decided on the real gadget by the harness: exported values vs direct evaluation for seeded topologies,
@@ -76,6 +79,18 @@ Theorem C19_gkr_exec_sound : forall (ws : list (wire G)) rho proofs chals (V : n
   forall i w, nth_error ws i = Some w -> is_output G ws i = true ->
   mle F zero one add mul sub n (asg i) rho = mle F zero one add mul sub n (V i) rho.
 Proof. exact (gkr_exec_sound F zero one add mul sub opp div inv Fth eq_dec G gate_eval gate_deg n asg). Qed.
+
+Theorem C19_direct_eval_consistent : forall (ws : list (wire G)),
+  sorted_b G ws = true -> consistent F zero one G gate_eval n asg ws (direct_eval F zero G gate_eval asg ws).
+Proof. exact (direct_eval_consistent F zero one G gate_eval n asg). Qed.
+
+Theorem C19_gkr_exec_sound_direct : forall (ws : list (wire G)) rho proofs chals,
+  gkr_exec F zero one add mul sub inv eq_dec G gate_eval gate_deg n asg ws rho proofs chals = true ->
+  char_ok F zero one add G gate_deg ws ->
+  no_luck F zero one add mul sub inv G gate_eval n asg ws (build_runs F zero one add mul sub G n asg ws rho proofs chals) (direct_eval F zero G gate_eval asg ws) ->
+  forall i w, nth_error ws i = Some w -> is_output G ws i = true ->
+  mle F zero one add mul sub n (asg i) rho = mle F zero one add mul sub n (direct_eval F zero G gate_eval asg ws i) rho.
+Proof. exact (gkr_exec_sound_direct F zero one add mul sub opp div inv Fth eq_dec G gate_eval gate_deg n asg). Qed.
 End C19.
 
 Print Assumptions C19_sumcheck_complete.
@@ -84,3 +99,5 @@ Print Assumptions C19_lagrange_nodes.
 Print Assumptions C19_mle_on_hypercube.
 Print Assumptions C19_gkr_claims_true.
 Print Assumptions C19_gkr_exec_sound.
+Print Assumptions C19_direct_eval_consistent.
+Print Assumptions C19_gkr_exec_sound_direct.
